@@ -117,5 +117,8 @@ AuthStable(authp, authq, signer) ==
      /\ (authp[a].num >= 0) => (authq[a].num = authp[a].num)
      /\ \/ authq[a].seq = authp[a].seq
         \/ (a = signer /\ authq[a].seq = authp[a].seq + 1)
+\* Storage plans (C07 at whole-application level, any size up to MaxInt64): plans = set of per-plan observations
+\* [owner, neg (space used negative), fits (used <= bought), eq (used = footprint of the owner's live plan-paid files)]
+PlansSound(plans) == \A p \in plans : ~p.neg /\ p.fits /\ p.eq
 LG_Step == LG_Supply /\ LG_FailFree /\ LG_StorKeeps /\ LG_GaugeHold
 =============================================================================
